@@ -2,6 +2,7 @@ package exec
 
 import (
 	"fmt"
+	"os"
 	"go/constant"
 	"go/token"
 	"go/types"
@@ -53,20 +54,21 @@ type Exec struct {
 	classTy     map[string]types.Type
 	building    bool
 
-	entry      *State // snapshot at function entry (for old())
-	entryAlloc *T
-	params     map[string]Val // entry values of parameters (name and name0)
-	mods       []modLoc       // evaluated modifies clause of the function under verification
-	oblCount   map[string]int
-	retCount   int
-	callCount  map[string]int
-	depth      int
-	steps      int
-	MaxSteps   int
-	Notes      []string
-	coro       *coroSched
+	entry        *State // snapshot at function entry (for old())
+	entryAlloc   *T
+	params       map[string]Val // entry values of parameters (name and name0)
+	mods         []modLoc       // evaluated modifies clause of the function under verification
+	oblCount     map[string]int
+	retCount     int
+	callCount    map[string]int
+	depth        int
+	steps        int
+	MaxSteps     int
+	Notes        []string
+	coro         *coroSched
 	pendingBinds []Val
-	SplitIdx   int
+	SplitIdx     int
+	FoldQueries  int
 }
 
 func NewExec(p *Program, fn *ssa.Function, mode Mode) *Exec {
@@ -202,7 +204,6 @@ func (x *Exec) strConst(s string) VStr {
 	strConsts[s] = v
 	return v
 }
-
 
 func (x *Exec) get(st *State, v ssa.Value) Val {
 	switch v := v.(type) {
@@ -376,6 +377,7 @@ func maxAlloc(c, a, b *T) *T {
 func (x *Exec) runRegion(st *State, b, from, stop *ssa.BasicBlock, rets *[]retRec, depth int) *State {
 	fn := b.Parent()
 	info := x.P.funcInfo(fn)
+	continue2 := false
 	for {
 		if st.PC == term.False {
 			return nil
@@ -444,6 +446,32 @@ func (x *Exec) runRegion(st *State, b, from, stop *ssa.BasicBlock, rets *[]retRe
 				if c == term.False {
 					from, b = b, b.Succs[1]
 					break
+				}
+				if x.Mode != ModeProof || len(st.Frames) > 1 || x.loopCutFor(fn, loopHeadOf(info, b)) == nil {
+					if l := info.innermost(b); l != nil && b == l.Head && (l.Blocks[b.Succs[0]] != l.Blocks[b.Succs[1]]) && x.loopCutFor(fn, l.Head) == nil {
+						// exit test of a loop that is being unwound: the condition must be decided by
+						// the path condition (solver-aided folding); otherwise unwinding is impossible
+						if os.Getenv("GOVC_DEBUG") != "" {
+							fmt.Fprintf(os.Stderr, "fold: %s loop %d cond=%s\n", fnName(fn), l.N, c)
+						}
+						switch {
+						case x.implied(st, term.False):
+							st.Died = true
+							return nil
+						case x.implied(st, c):
+							from, b = b, b.Succs[0]
+							continue2 = true
+						case x.implied(st, term.Not(c)):
+							from, b = b, b.Succs[1]
+							continue2 = true
+						default:
+							x.fail("%s: loop %d has no invariant and its exit condition is not determined by the inputs (cannot unwind)", fnName(fn), l.N)
+						}
+						if continue2 {
+							continue2 = false
+							break
+						}
+					}
 				}
 				join := info.ipdom[b]
 				sT := st.clone()
@@ -878,6 +906,9 @@ func (x *Exec) doIndexAddr(st *State, ins *ssa.IndexAddr) {
 func (x *Exec) doIndex(st *State, ins *ssa.Index) {
 	idx := x.getT(st, ins.Index)
 	switch a := x.get(st, ins.X).(type) {
+	case VStr:
+		x.oblige(st, "bounds", "string", term.And(term.Le(term.I(0), idx), term.Lt(idx, a.Len)), ins.Pos())
+		x.set(st, ins, VT{x.strByte(a, idx), ins.Type()})
 	case VArr:
 		arr := a.Ty.Underlying().(*types.Array)
 		x.oblige(st, "bounds", "array", term.And(term.Le(term.I(0), idx), term.Lt(idx, term.I(arr.Len()))), ins.Pos())
